@@ -208,7 +208,8 @@ pub fn log_write(pos: usize, len: usize, capacity: usize) -> bool {
     let mut g = lock();
     if let Some(c) = g.as_mut() {
         c.writes.push((pos, len, capacity));
-        c.log.push(format!("mmwrite {} {} {}", pos, len, capacity));
+        let t = TICKET.with(|t| t.get()).map(|x| x as i64).unwrap_or(-1);
+        c.log.push(format!("mmwrite {} {} {} {}", t, pos, len, capacity));
     }
     pos.checked_add(len).map(|e| e <= capacity).unwrap_or(false)
 }
